@@ -38,7 +38,7 @@ pub struct C10;
 
 /// Resolves the symbolic schedule; external deltas depend on the model's reported time, so the
 /// model is advanced alongside.
-fn resolve_steps(case: &Case) -> Vec<Step> {
+pub fn resolve_steps(case: &Case) -> Vec<Step> {
     let res = prog::resolve(&case.program);
     let n = res.time.len();
     let mut out: Vec<Step> = Vec::new();
